@@ -23,15 +23,18 @@ def named_data(n, dims=1, grid=4, kind="generic", seed=0, outlier_prob=0.0, name
     return data
 
 
-def clustered_setup(n, sizes, dims=1, grid=4, kind="generic", seed=0, outlier_prob=0.0):
+def clustered_setup(n, sizes, dims=1, grid=4, kind="generic", seed=0, outlier_prob=0.0, phantom=False):
     """Data points are clusters with integer ids (as PyClone-VI emits); returns data, clusters
-    table rows [(mutation_id, cluster_id)]."""
+    table rows [(mutation_id, cluster_id)].  phantom: the cluster file also lists a cluster (id between the
+    others) none of whose mutations survived loading, so it has no data point."""
     ids = [10 + 3 * i for i in range(n)]  # integer ids, not 0..n-1, so ids and idx cannot be confused
     data = named_data(n, dims, grid, kind, seed, outlier_prob, names=[str(c) for c in ids])
     rows = []
     for i, c in enumerate(ids):
         for k in range(sizes[i % len(sizes)]):
             rows.append(("c%d_m%d" % (c, k), c))
+        if phantom and i == 0:
+            rows += [("c11_m0", 11), ("c11_m1", 11)]
     return data, rows
 
 
@@ -124,6 +127,11 @@ def decode(table, newick, name_to_idx, cluster_of=None):
         mid = str(row["mutation_id"])
         dp_name = str(cluster_of[mid]) if cluster_of is not None else mid
         if dp_name not in name_to_idx:
+            if cluster_of is not None and mid in cluster_of:
+                # a mutation of a listed cluster that has no data point (all its mutations were dropped on loading): in no clone
+                if cid != "-1":
+                    probs.append("mutation %r of cluster %s, which has no data point, is listed under clone %s" % (mid, dp_name, cid))
+                continue
             probs.append("table lists unknown mutation %r" % mid)
             continue
         idx = name_to_idx[dp_name]
